@@ -140,6 +140,15 @@ CHECKS["C04"] = dict(
     note="About 40 % of generated cases carry the documented precision warning (measured, class histogram in the evidence); marginal_icdf's Monte-Carlo uses the harness-seeded global RNG.",
     design="7/C04",
 )
+CHECKS["C17"] = dict(
+    technique="property-based testing (Hypothesis): differential against exact rational (fractions.Fraction) polygon / segment arithmetic",
+    text="Design conditions: IFORM/ISORM/direct-sampling contours of generated 2-D models (incl. negative ordinates) and random star-shaped non-convex polygons (5-60 vertices), steps None/int/explicit "
+         "lists partly outside the range, both swap_axis values: every returned row must be (requested abscissa, largest exact crossing ordinate), abscissae without crossing omitted, order kept, default "
+         "steps as documented, swap_axis equivalent to exchanging columns, contour untouched. intersection(): random polyline pairs (walks, graphs, loops; 2-40 segments) in general position must return "
+         "exactly the exact crossing set.",
+    note="General position by construction (abscissae never on a vertex; no shared vertices / collinear overlaps); tolerance 1e-9 of the extent.",
+    design="7/C17",
+)
 NOT_YET = {}
 
 def main():
